@@ -1875,6 +1875,11 @@ impl KyroDbService for KyroDBServiceImpl {
             }
         }
 
+        // Serialize with the tenant's quota check + insert: a delete that decrements the count
+        // between an upsert's "already exists" decision and its write makes the count drift.
+        let quota_lock = self.tenant_quota_lock(tenant.as_ref());
+        let _quota_guard = quota_lock.as_ref().map(|lock| lock.lock());
+
         match engine.delete(global_doc_id) {
             Ok(existed) => {
                 let latency_ns = start.elapsed().as_nanos() as u64;
@@ -2459,6 +2464,11 @@ impl KyroDbService for KyroDBServiceImpl {
         let req = request.into_inner();
 
         let engine = &self.state.engine;
+
+        // Same discipline as insert/delete: liveness changes and the quota count update happen
+        // under the tenant's quota lock.
+        let quota_lock = self.tenant_quota_lock(tenant.as_ref());
+        let _quota_guard = quota_lock.as_ref().map(|lock| lock.lock());
 
         let result = match req.delete_criteria {
             Some(batch_delete_request::DeleteCriteria::Ids(id_list)) => {
